@@ -1598,6 +1598,30 @@ def more_spellings(tree: ast.AST):
             return new
         if isinstance(c.func, ast.Name) and c.func.id == "list" and len(c.args) == 1 and not c.keywords and isinstance(c.args[0], ast.Call) and isinstance(c.args[0].func, ast.Name) and c.args[0].func.id == "sorted":
             return c.args[0]
+        # filter / map / starmap with a lambda or a plain callable are generator expressions
+        fname = c.func.id if isinstance(c.func, ast.Name) else (c.func.attr if isinstance(c.func, ast.Attribute) and isinstance(c.func.value, ast.Name) and c.func.value.id == "itertools" else None)
+        if fname in ("filter", "map") and len(c.args) == 2 and not c.keywords:
+            f_, it_ = c.args
+            if isinstance(f_, ast.Lambda) and len(f_.args.args) == 1 and not f_.args.defaults and not f_.args.vararg and not f_.args.kwarg and not f_.args.kwonlyargs:
+                v_ = f_.args.args[0].arg
+                tgt = ast.Name(id=v_, ctx=ast.Store())
+                if fname == "filter":
+                    return ast.GeneratorExp(elt=ast.Name(id=v_, ctx=ast.Load()), generators=[ast.comprehension(target=tgt, iter=it_, ifs=[f_.body], is_async=0)])
+                return ast.GeneratorExp(elt=f_.body, generators=[ast.comprehension(target=tgt, iter=it_, ifs=[], is_async=0)])
+            if fname == "map" and (isinstance(f_, ast.Name) or (isinstance(f_, ast.Attribute) and _pure_path(f_))):
+                return ast.GeneratorExp(elt=ast.Call(func=f_, args=[ast.Name(id="_m__x", ctx=ast.Load())], keywords=[]), generators=[ast.comprehension(target=ast.Name(id="_m__x", ctx=ast.Store()), iter=it_, ifs=[], is_async=0)])
+        if fname == "starmap" and len(c.args) == 2 and not c.keywords and (isinstance(c.args[0], ast.Name) or (isinstance(c.args[0], ast.Attribute) and _pure_path(c.args[0]))):
+            f_, it_ = c.args
+            pair = isinstance(it_, ast.Call) and ((isinstance(it_.func, ast.Attribute) and it_.func.attr in ("items", "iterrows", "iteritems") and not it_.args)
+                                                  or (isinstance(it_.func, ast.Name) and it_.func.id == "enumerate") or (isinstance(it_.func, ast.Name) and it_.func.id == "zip" and len(it_.args) == 2))
+            if pair:
+                tgt = ast.Tuple(elts=[ast.Name(id="_s__a", ctx=ast.Store()), ast.Name(id="_s__b", ctx=ast.Store())], ctx=ast.Store())
+                return ast.GeneratorExp(elt=ast.Call(func=f_, args=[ast.Name(id="_s__a", ctx=ast.Load()), ast.Name(id="_s__b", ctx=ast.Load())], keywords=[]),
+                                        generators=[ast.comprehension(target=tgt, iter=it_, ifs=[], is_async=0)])
+        # list(<generator expression>) is the list comprehension (set / dict alike)
+        if isinstance(c.func, ast.Name) and c.func.id in ("list", "set") and len(c.args) == 1 and not c.keywords and isinstance(c.args[0], ast.GeneratorExp):
+            g_ = c.args[0]
+            return (ast.ListComp if c.func.id == "list" else ast.SetComp)(elt=g_.elt, generators=g_.generators)
         # set(a).union(b) is set(a) | set(b)
         if isinstance(c.func, ast.Attribute) and c.func.attr == "union" and len(c.args) == 1 and not c.keywords and isinstance(c.func.value, ast.Call) and isinstance(c.func.value.func, ast.Name) \
                 and c.func.value.func.id == "set" and len(c.func.value.args) == 1:
